@@ -192,6 +192,14 @@ def inline (G : Graph P) (entrySites : List (Site P)) : Except (List (Err P)) (B
 
 end walk
 
+/-- H5: no call site inside a required module has a local `require` in scope (decidable).
+Inside this region the walk's `DefaultVisitor` blind spot (finding F8) cannot matter. -/
+def H5 {P : Type} (G : Graph P) : Bool :=
+  G.all fun e =>
+    match e.2 with
+    | .lua sites _ => sites.all fun s => !s.shadowed
+    | _ => true
+
 /-! ### module names (`generate_module_name`, `process/utils`: `Permutator`, `is_valid_identifier`) -/
 
 def alphabet : List Char := "abcdefghijklmnopqrstuvwxyzABCDEFGHIJKLMNOPQRSTUVWXYZ_0123456789".toList
